@@ -17,6 +17,7 @@ def transforms(r, n, WE):
     E2 = [(perm[u], perm[v], w) if r.random() < .5 else (perm[v], perm[u], w) for (u, v, w) in WE]; r.shuffle(E2)
     out.append(("relabel+reorder", n, E2, lambda mu: mu))
     out.append(("isolated", n + 2, list(WE), lambda mu: mu))
+    out.append(("heap-layout", n, list(WE), lambda mu: mu))      # same graph, edge nodes at addresses out of insertion order
     if n > 0:
         n3, E3 = n, list(WE)
         for _ in range(3):
@@ -72,17 +73,33 @@ def run(tier, replay=None):
             n, E = big_graph(r, r.choice([60, 120] if tier == "quick" else [100, 200, 350]))
             WE, _ = weights(r, E, r.choice(["unit", "small", "wide"]))
             bases.append((n, WE))
+    # mid-size weighted graphs for the layout transform: the signed variant iterates edges in ADDRESS order, so
+    # the same graph is run with several perturbed heap layouts and must report the same optimum
+    layout_bases = []
+    if not replay:
+        for i in range(110 if tier == "quick" else 600):
+            n = r.randint(25, 55); E = gnp(r, n, r.uniform(2.2, 4.0) / n)
+            WE, _ = weights(r, [tuple(e) for e in E], "wide")
+            layout_bases.append((n, WE))
     jobs, meta = {}, {}
-    for bi, (n, WE) in enumerate(bases):
+    for li, (n, WE) in enumerate(layout_bases):
+        bi = len(bases) + li
+        jobs["b%d-fvs" % bi] = ((n, WE, 0, "base"), "fvs"); meta["b%d-fvs" % bi] = (bi, "base", "fvs")
+        jobs["b%d-signed" % bi] = ((n, WE, 0, "base"), "signed"); meta["b%d-signed" % bi] = (bi, "base", "signed")
+        for hj in range(4):
+            k = "b%d-h%d" % (bi, hj)
+            jobs[k] = ((n, WE, 0, "heap-layout"), "signed"); meta[k] = (bi, "heap-layout", "signed", lambda mu: mu)
+    bases = bases + layout_bases
+    for bi, (n, WE) in enumerate(bases[:len(bases) - len(layout_bases)]):
         big = n > 40
         vs = VARIANTS if not big else ["signed", "fvs", "iso_tbb", "signed_tbb"]
         for v in vs:
             jobs["b%d-%s" % (bi, v)] = ((n, WE, 0, "base"), v); meta["b%d-%s" % (bi, v)] = (bi, "base", v)
         for ti, (name, n2, WE2, f) in enumerate(transforms(r, n, WE)):
-            for v in ([r.choice(vs)] if big else r.sample(vs, 2)):
+            for v in ([r.choice(vs)] if big else (r.sample(vs, 2) if name != "heap-layout" else ["signed", "signed_tbb", r.choice(vs)])):
                 k = "b%d-t%d-%s" % (bi, ti, v)
                 jobs[k] = ((n2, WE2, 0, name), v); meta[k] = (bi, name, v, f)
-    text = "".join(render_graph(k, "exact", "d", 0, [v, 0], c[0], c[1]) for k, (c, v) in jobs.items())
+    text = "".join(render_graph(k, "exact", "d", 0, [v, 0] + (["heap=%d" % (r.getrandbits(30) + 1)] if c[3] == "heap-layout" else []), c[0], c[1]) for k, (c, v) in jobs.items())
     rc, out, err = run_harness(binary, text, timeout=7200)
     if rc != 0:
         res.violation("harness crashed", {"kind": "crash", "stderr": err[-3000:]}); return res.finish()
